@@ -695,6 +695,79 @@ func literalSemantics(res *report.Result, o *onto.Onto) {
 			res.Violate(fmt.Sprintf("bool-value|%v", b), fmt.Sprintf("discoverable %v: Get() = %v", b, got), M{"check": "C12", "doc": doc})
 		}
 	}
+	// plain strings, language tags, media types, link relations: the accessor returns the string itself
+	for _, sc := range []struct {
+		typ, member, goProp, is string
+		vals                    []string
+	}{
+		{"Note", "content", "ActivityStreamsContent", "IsXMLSchemaString", []string{"x", "", " leading and trailing ", "line\nbreak \"quoted\" \\ back", "\u00e4\u00f6\u00fc \u4e16\u754c \U0001F600", "<p>html &amp; entities</p>", "null", "true", "5"}},
+		{"Link", "hreflang", "ActivityStreamsHreflang", "IsRFCBcp47", []string{"en", "en-US", "zh-Hant-TW", "de-CH-1901", "x-private"}},
+		{"Link", "mediaType", "ActivityStreamsMediaType", "IsRFCRfc2045", []string{"text/html", "application/ld+json; profile=\"https://www.w3.org/ns/activitystreams\"", "image/svg+xml", "text/plain; charset=utf-8"}},
+		{"Link", "rel", "ActivityStreamsRel", "IsRFCRfc5988", []string{"next", "prev", "canonical", "me"}},
+	} {
+		if o.Props["ActivityStreams/"+sc.member] == nil {
+			continue
+		}
+		for _, v := range sc.vals {
+			p, doc := get(sc.typ, sc.member, v, sc.goProp)
+			res.Case("string-like|" + sc.member + "|" + v)
+			el := p
+			if p != nil && method(p, "Len").IsValid() {
+				if method(p, "Len").Call(nil)[0].Int() != 1 {
+					res.Violate("string-value|"+sc.member+"|element-count", fmt.Sprintf("%s %q: %d elements", sc.member, v, method(p, "Len").Call(nil)[0].Int()), M{"check": "C12", "doc": doc})
+					continue
+				}
+				el = method(p, "At").Call([]reflect.Value{reflect.ValueOf(0)})[0].Interface()
+			}
+			if el == nil {
+				res.Violate("string-rejected|"+sc.member, fmt.Sprintf("%s %q not decoded", sc.member, v), M{"check": "C12", "doc": doc})
+				continue
+			}
+			getter := "Get"
+			if !method(el, getter).IsValid() || method(el, sc.is).IsValid() && method(el, "Get"+strings.TrimPrefix(sc.is, "Is")).IsValid() {
+				getter = "Get" + strings.TrimPrefix(sc.is, "Is")
+			}
+			if m := method(el, sc.is); m.IsValid() && !m.Call(nil)[0].Bool() {
+				res.Violate("string-kind|"+sc.member, fmt.Sprintf("%s %q: %s() is false", sc.member, v, sc.is), M{"check": "C12", "doc": doc})
+				continue
+			}
+			if g := method(el, getter); g.IsValid() {
+				if got := fmt.Sprint(g.Call(nil)[0].Interface()); got != v {
+					res.Violate("string-value|"+sc.member, fmt.Sprintf("%s %q: %s() = %q", sc.member, v, getter, got), M{"check": "C12", "doc": doc})
+				}
+			}
+		}
+	}
+	// language maps: every entry reachable through the map accessor and through GetLanguage / HasLanguage
+	for _, lm := range []map[string]string{{"en": "hello"}, {"en": "hello", "fr": "salut", "zh-Hant": "\u4f60\u597d"}, {"und": ""}} {
+		raw := M{}
+		for k, v := range lm {
+			raw[k] = v
+		}
+		p, doc := get("Note", "nameMap", raw, "ActivityStreamsName")
+		res.Case(fmt.Sprintf("langmap|%d", len(lm)))
+		if p == nil || method(p, "Len").Call(nil)[0].Int() != 1 {
+			res.Violate("langmap-rejected", fmt.Sprintf("nameMap %v not decoded as one element", lm), M{"check": "C12", "doc": doc})
+			continue
+		}
+		el := method(p, "At").Call([]reflect.Value{reflect.ValueOf(0)})[0].Interface()
+		if !method(el, "IsRDFLangString").Call(nil)[0].Bool() {
+			res.Violate("langmap-kind", fmt.Sprintf("nameMap %v: IsRDFLangString() is false", lm), M{"check": "C12", "doc": doc})
+			continue
+		}
+		got, _ := method(el, "GetRDFLangString").Call(nil)[0].Interface().(map[string]string)
+		if !reflect.DeepEqual(got, lm) {
+			res.Violate("langmap-value", fmt.Sprintf("nameMap %v: GetRDFLangString() = %v", lm, got), M{"check": "C12", "doc": doc})
+		}
+		for k, v := range lm {
+			if !method(el, "HasLanguage").Call([]reflect.Value{reflect.ValueOf(k)})[0].Bool() || method(el, "GetLanguage").Call([]reflect.Value{reflect.ValueOf(k)})[0].String() != v {
+				res.Violate("langmap-language-accessors", fmt.Sprintf("nameMap %v: HasLanguage / GetLanguage(%q) disagree with the map", lm, k), M{"check": "C12", "doc": doc})
+			}
+		}
+		if method(el, "HasLanguage").Call([]reflect.Value{reflect.ValueOf("xx-absent")})[0].Bool() {
+			res.Violate("langmap-language-accessors", fmt.Sprintf("nameMap %v: HasLanguage of an absent language is true", lm), M{"check": "C12", "doc": doc})
+		}
+	}
 	// URIs
 	for _, u := range []string{"https://x.example/a?b=c#d", "http://x.example:8080/", "mailto:a@x.example", "urn:uuid:123"} {
 		p, doc := get("Link", "href", u, "ActivityStreamsHref")
